@@ -210,4 +210,134 @@ def JVal.isNil : JVal → Bool
   | .nilp => true
   | .obj _ => false
 
+/-! ## schema/relationship.go `Relationship.ToQueryConditions` (association.go `buildCondition`: Association().Find / Count;
+     callbacks/delete.go) and the column choice of callbacks/preload.go `preload`
+
+  A parsed relation is its list of `schema.Reference`s (`JoinRef` above: OwnPrimaryKey, PrimaryKey.DBName = the REFERENCED
+  column, ForeignKey.DBName, PrimaryValue = polymorphic constant).  `ToQueryConditions` walks the references once:
+
+    direct (no join table)                                    through a join table
+    own      : IN-column fk (child table),  value field pk     own : IN-column fk (JOIN table), value field pk
+    constant : `child.fk = 'value'`                            constant : `join.fk = 'value'`
+    else     : IN-column pk (target table), value field fk     else : `join.fk = target.pk`
+
+  then `_, foreignValues := GetIdentityFieldValuesMap(parents, foreignFields)` and
+  `clause.IN{ToQueryValues(table, relForeignKeys, foreignValues)}`.  The IN-column of a belongs-to is `ref.PrimaryKey` —
+  the column named by `references:` — NOT the primary key of the target table. -/
+
+inductive QAtom where
+  | constEq (table col value : List Char)          -- clause.Eq{Column{table, col}, Value: ref.PrimaryValue}
+  | colEq (table col table2 col2 : List Char)      -- clause.Eq{Column{joinTable, fk}, Value: Column{FieldSchema.Table, pk}}
+deriving Repr, DecidableEq
+
+/-- (IN column `relForeignKeys`, value field `foreignFields`) contributed by one reference -/
+def qcPair (joined : Bool) (r : JoinRef) : Option (List Char × List Char) :=
+  if r.ownPK then some (r.fkCol, r.pkCol)
+  else if r.primaryValue ≠ [] then none
+  else if joined then none
+  else some (r.pkCol, r.fkCol)
+
+/-- the `conds = append(conds, clause.Eq{…})` contributed by one reference -/
+def qcAtom (fieldTable : List Char) (joinTable : Option (List Char)) (r : JoinRef) : Option QAtom :=
+  if r.ownPK then none
+  else if r.primaryValue ≠ [] then some (.constEq (joinTable.getD fieldTable) r.fkCol r.primaryValue)
+  else match joinTable with
+    | some jt => some (.colEq jt r.fkCol fieldTable r.pkCol)
+    | none => none
+
+structure QConds where
+  atoms : List QAtom
+  inTable : List Char                          -- `table`: FieldSchema.Table, or JoinTable.Table
+  pairs : List (List Char × List Char)         -- (relForeignKeys[i], foreignFields[i])
+deriving Repr, DecidableEq
+
+def QConds.inCols (q : QConds) : List (List Char) := q.pairs.map (·.1)
+def QConds.valFields (q : QConds) : List (List Char) := q.pairs.map (·.2)
+
+def toQueryConditions (fieldTable : List Char) (joinTable : Option (List Char)) (refs : List JoinRef) : QConds :=
+  { atoms := refs.filterMap (qcAtom fieldTable joinTable)
+    inTable := joinTable.getD fieldTable
+    pairs := refs.filterMap (qcPair joinTable.isSome) }
+
+/-- callbacks/preload.go `preload`, direct branch: `relForeignKeys` / `foreignFields` of the child query are chosen by the
+    same three-way test (the constants become `tx.Where(clause.Eq{fk, PrimaryValue})`) -/
+def preloadDirectPairs (refs : List JoinRef) : List (List Char × List Char) := refs.filterMap (qcPair false)
+
+/-- callbacks/preload.go `preload`, join-table branch: first query = join rows `WHERE join.fk IN parents.pk` over the OWN
+    references; second query = targets `WHERE target.pk IN joinRows.fk` over the other references -/
+def preloadJoinPairs (refs : List JoinRef) : List (List Char × List Char) := refs.filterMap (qcPair true)
+def preloadHopPairs (refs : List JoinRef) : List (List Char × List Char) :=
+  refs.filterMap (fun r => if r.ownPK then none else if r.primaryValue ≠ [] then none else some (r.pkCol, r.fkCol))
+
+/-! ### what the conditions select -/
+
+/-- a table row: column ↦ value (`.nil` = NULL) -/
+abbrev QRow := List Char → KeyVal
+/-- the candidate row of each table mentioned by the conditions (the child / target table and, for many2many, the join table) -/
+abbrev QEnv := List Char → QRow
+
+/-- SQL `=`: NULL equals nothing -/
+def sqlEq (a b : KeyVal) : Bool := a != .nil && b != .nil && a == b
+
+def QAtom.holds (env : QEnv) : QAtom → Bool
+  | .constEq t c v => sqlEq (env t c) (.str v)
+  | .colEq t c t2 c2 => sqlEq (env t c) (env t2 c2)
+
+/-- a record handed to `Association()`: its address and its columns with the zero flag `field.ValueOf` reports -/
+structure PRow where
+  addr : Nat
+  cols : List Char → KeyComp
+
+def PRow.idRow (p : PRow) (fields : List (List Char)) : IdRow := ⟨p.addr, fields.map p.cols⟩
+
+/-- `clause.IN{Column: columns, Values: values}` evaluated on the candidate row (tuple equality, NULL equals nothing) -/
+def inHolds (env : QEnv) (q : QConds) (values : List (List KeyVal)) : Bool :=
+  let t := q.inCols.map (env q.inTable)
+  !t.contains .nil && values.contains t
+
+/-- does the WHERE / ON list built by `ToQueryConditions` for the given records accept the candidate row(s)? -/
+def assocSelects (fieldTable : List Char) (joinTable : Option (List Char)) (refs : List JoinRef)
+    (parents : List PRow) (env : QEnv) : Bool :=
+  let q := toQueryConditions fieldTable joinTable refs
+  q.atoms.all (·.holds env) && inHolds env q (identitySlice (parents.map (·.idRow q.valFields))).values
+
+/-- the meaning of one `schema.Reference`: foreign key = REFERENCED key (or the polymorphic constant), for the record `p` -/
+def refHolds (fieldTable : List Char) (joinTable : Option (List Char)) (p : PRow) (env : QEnv) (r : JoinRef) : Bool :=
+  if r.ownPK then sqlEq (env (joinTable.getD fieldTable) r.fkCol) (p.cols r.pkCol).val
+  else if r.primaryValue ≠ [] then sqlEq (env (joinTable.getD fieldTable) r.fkCol) (.str r.primaryValue)
+  else match joinTable with
+    | some j => sqlEq (env j r.fkCol) (env fieldTable r.pkCol)
+    | none => sqlEq (env fieldTable r.pkCol) (p.cols r.fkCol).val
+
+/-! ### the relation as the harness / a reader writes it down: which column of which side equals which -/
+
+structure RelSpec where
+  belongsTo : Bool                               -- the foreign key lives on the record that owns the field
+  on : List (List Char × List Char)              -- (column of the record, column of the child / target)
+  consts : List (List Char × List Char)          -- child column = polymorphic constant
+  via : Option (List Char)                       -- join table
+  viaP : List (List Char × List Char)            -- (column of the record, column of the join table)
+  viaC : List (List Char × List Char)            -- (column of the join table, column of the target)
+deriving Repr, DecidableEq
+
+/-- the references gorm's parser must produce for the relation (as a set) -/
+def RelSpec.refs (s : RelSpec) : List JoinRef :=
+  match s.via with
+  | none =>
+    (if s.belongsTo then s.on.map (fun pc => (⟨false, pc.2, pc.1, []⟩ : JoinRef))
+     else s.on.map (fun pc => (⟨true, pc.1, pc.2, []⟩ : JoinRef)))
+      ++ s.consts.map (fun cv => (⟨false, [], cv.1, cv.2⟩ : JoinRef))
+  | some _ =>
+    s.viaP.map (fun pj => (⟨true, pj.1, pj.2, []⟩ : JoinRef)) ++ s.viaC.map (fun jc => (⟨false, jc.2, jc.1, []⟩ : JoinRef))
+
+/-- the reference join of the property text: "child rows whose foreign key equals that parent's referenced key" -/
+def RelSpec.holds (s : RelSpec) (childTable : List Char) (p : PRow) (env : QEnv) : Bool :=
+  match s.via with
+  | none =>
+    s.on.all (fun pc => sqlEq (env childTable pc.2) (p.cols pc.1).val) &&
+    s.consts.all (fun cv => sqlEq (env childTable cv.1) (.str cv.2))
+  | some j =>
+    s.viaP.all (fun pj => sqlEq (env j pj.2) (p.cols pj.1).val) &&
+    s.viaC.all (fun jc => sqlEq (env j jc.1) (env childTable jc.2))
+
 end Gorm
